@@ -1,11 +1,11 @@
 #!/bin/bash
 # usage: tools/allmutants.sh  -> runs the mutant audit of every pack and prints the mutants whose outcome is not the expected one
-cd /verif; ./build.sh || exit 2
+cd "$(dirname "$(readlink -f "$0")")/.."; ./build.sh || exit 2
 for i in $(seq -w 1 20); do ./mutants.sh C$i > /dev/null 2>&1; done
 python3 - <<'PY'
 import json,glob
 tot=0;bad=0
-for f in sorted(glob.glob('/verif/out/C*-mutants.json')):
+for f in sorted(glob.glob('out/C*-mutants.json')):
     try: d=json.load(open(f))
     except Exception as e: print(f,'unreadable',e); continue
     for m in d['mutants']:
